@@ -764,6 +764,40 @@ fn union_level(out: &mut Shards, rng: &mut Rng, lgk: u8) {
     }
 }
 
+/// an out-of-order register-mode gadget filled one value at a time, estimate and bounds after each: every
+/// count of empty registers is passed through (the composite estimator switches formulas on it)
+fn union_fill(out: &mut Shards, rng: &mut Rng, lgk: u8) {
+    let mut s = Sess::new(out, "hll-union-fill");
+    // two inputs that have just reached register mode (most registers still empty)
+    let mut mk = |s: &mut Sess, t: u8| {
+        let id = s.new_sketch(lgk, t);
+        for _ in 0..4000 {
+            if s.dead || s.sk[id].as_ref().unwrap().verif_state().mode == 2 {
+                break;
+            }
+            let (slot, val) = refhash::hll_coupon(&rng.next());
+            s.upd(id, pack(slot, val as u32));
+        }
+        s.chk(id);
+        id
+    };
+    let a = mk(&mut s, 8);
+    let b = mk(&mut s, 6);
+    let u = s.new_union(lgk);
+    s.uupd(u, a);
+    s.uupd(u, b);
+    s.uchk(u);
+    let k = 1u64 << lgk;
+    for _ in 0..(6 * k) {
+        if s.dead {
+            break;
+        }
+        s.uval(u, rng.next());
+    }
+    s.uchk(u);
+    s.utosk3(u);
+}
+
 pub fn record_union(args: &Args) {
     let seed = args.u64("seed", 1);
     let mut rng = Rng::new(seed ^ 0x0C03);
@@ -779,6 +813,9 @@ pub fn record_union(args: &Args) {
         }
         for &(lgk, lgmax) in &[(4u8, 4u8), (6, 8), (8, 8), (9, 7), (10, 12)] {
             union_single_ooo(&mut out, &mut rng, lgk, lgmax);
+        }
+        for &lgk in &[5u8, 6, 7, 8, 9] {
+            union_fill(&mut out, &mut rng, lgk);
         }
         union_level(&mut out, &mut rng, 4);
         union_level(&mut out, &mut rng, 5);
